@@ -56,6 +56,20 @@ def tables(g):
         w = C.pac(row, italics=True)
         g.check(f"italics PAC {w} (row {row})", _is_pac_command(w) and tuple(K.PAC_BYTES_TO_POSITIONING_MAP[w[:2]][w[2:]]) == (row, 0)
                 and w in K.ITALICS_COMMANDS, {})
+    # italics classification of EVERY style-setting word of the standard: the 16 mid-row codes and the
+    # 15 x 32 preamble address codes (underlined variants included): italic iff the attribute bits say so
+    from pycaption.scc.specialized_collections import InstructionNodeCreator as _INC
+    for b2 in range(0x20, 0x30):
+        w = C.word(0x11, b2)
+        want = (b2 & 0x0E) == 0x0E
+        got = _INC.get_style_for_command(w) == "italic"
+        g.check(f"mid-row {w} italic={want}", got == want and (w in K.MID_ROW_CODES), {"classified_as": _INC.get_style_for_command(w)})
+    for row, (hi, base) in C.PAC_ROW.items():
+        for off in range(0x20):
+            w = C.word(hi, base + off)
+            want = (off & 0x1E) == 0x0E
+            got = _INC.get_style_for_command(w) == "italic"
+            g.check(f"PAC {w} (row {row}) italic={want}", got == want, {"classified_as": _INC.get_style_for_command(w)})
     g.check("tab offsets", K.PAC_TAB_OFFSET_COMMANDS == {C.ctrl("TO1"): 1, C.ctrl("TO2"): 2, C.ctrl("TO3"): 3}, {"table": K.PAC_TAB_OFFSET_COMMANDS})
     g.check("mid-row italics codes", C.midrow(True) in K.ITALICS_COMMANDS and C.midrow(False) in K.STYLE_SETTING_COMMANDS
             and C.midrow(False) not in K.ITALICS_COMMANDS, {})
@@ -194,7 +208,8 @@ def encode_rows(rows, dbl):
         if dbl and unit is None:
             ws.append(w)
     for r, col, to, ital_pac, segs in rows:
-        p = C.pac(r, 0, italics=True) if ital_pac else C.pac(r, col)
+        ul = (r + len(segs)) % 2 == 1          # underlined variants of the italic codes on every other row
+        p = C.pac(r, 0, italics=True, underline=ul) if ital_pac else C.pac(r, col)
         if to and not ital_pac:
             t = C.ctrl(f"TO{to}")
             ws.extend([p, t, p, t] if dbl else [p, t])
@@ -211,7 +226,7 @@ def encode_rows(rows, dbl):
             elif kind == "bs":
                 ctl(C.ctrl("BS"))
             elif kind == "ital_on":
-                ctl(C.midrow(True))
+                ctl(C.midrow(True, underline=ul))
             else:
                 ctl(C.midrow(False))
     return ws
@@ -278,14 +293,15 @@ def bounded(ctx, b):
     singles += [[(15, 0, to, False, [("text", "AB")])] for to in (1, 2, 3)]
     singles += [[(15, 0, 0, False, [("special", ch)])] for ch in C.SPECIAL.values() if ch != " "]
     singles += [[(15, 0, 0, False, [("text", "ab"), ("extended", ("a", code))])] for code in K.EXTENDED_CHARS]
-    programs = [(rows, dbl) for rows in singles for dbl in (False, True)]
+    programs = [(rows, dbl, True) for rows in singles for dbl in (False, True)]
     for _ in range(n):
-        programs.append((gen_rows(rng, rng.choice([1, 1, 2, 3])), rng.choice([False, True])))
-    for rows, dbl in programs:
-        def one(rows=rows, dbl=dbl):
+        # (a quarter of the streams end right after the End Of Caption: the screen is never erased)
+        programs.append((gen_rows(rng, rng.choice([1, 1, 2, 3])), rng.choice([False, True]), rng.random() < 0.75))
+    for rows, dbl, erased in programs:
+        def one(rows=rows, dbl=dbl, erased=erased):
             ctl = lambda w: [w, w] if dbl else [w]
             ws = ctl(C.ctrl("ENM")) + ctl(C.ctrl("RCL")) + encode_rows(rows, dbl) + ctl(C.ctrl("EDM")) + ctl(C.ctrl("EOC"))
-            doc = C.scc_document([(C.timecode(30), ws), (C.timecode(30 + len(ws) + 60), ctl(C.ctrl("EDM")))])
+            doc = C.scc_document([(C.timecode(30), ws)] + ([(C.timecode(30 + len(ws) + 60), ctl(C.ctrl("EDM")))] if erased else []))
             exp = expected_from_reference(C.decode_words(ws + ctl(C.ctrl("EDM"))))
             caps = SCCReader().read(doc).get_captions("en-US")
             got = []
@@ -314,7 +330,7 @@ def bounded(ctx, b):
             if len({g_["times"] for g_ in got}) > 1:
                 return False, dict(detail, what="parts of one screen have different times")
             return True, None
-        b.guard(("prog", tuple(map(str, rows)), dbl), one, sample={"rows": [(r, col, to) for r, col, to, _, _ in rows], "doubled": dbl})
+        b.guard(("prog", tuple(map(str, rows)), dbl, erased), one, sample={"rows": [(r, col, to) for r, col, to, _, _ in rows], "doubled": dbl, "erased_at_the_end": erased})
 
 
 def bounded_consecutive_captions(ctx, b):
